@@ -12,6 +12,20 @@ type xpathImpl struct {
 }
 
 func (xp xpathImpl) resolvePath(seg *xpath.Path, s *Selection) (*Selection, error) {
+	if seg.Ident == ".." {
+		up := s.parent
+		if up != nil && s.InsideList {
+			// parent selection of a list item is the list, its data parent is the node holding the list
+			up = up.parent
+		}
+		if up == nil {
+			return nil, fmt.Errorf("'..' leads above the root in xpath")
+		}
+		if seg.Next == nil {
+			return up, nil
+		}
+		return xp.resolvePath(seg.Next, up)
+	}
 	defs, hasDefs := s.Meta().(meta.HasDefinitions)
 	if !hasDefs {
 		return nil, fmt.Errorf("'%s' cannot be found inside '%s' in xpath", seg.Ident, s.Meta().Ident())
